@@ -14,7 +14,7 @@ Inductive arg :=
 | ALit (v : val)                        (* literal (containers are rebuilt by arg_val) *)
 | AT (ops : list (string * arg))        (* nested T-expression as written (dunder, arg), evaluated against the original target *)
 | ASlice (a b c : option Z)
-| ACall (args : list arg)               (* positional arguments of a call *)
+| ACall (args : list arg) (kw : list (string * arg))   (* positional, then keyword arguments of a call, as written *)
 | ANoArg.                               (* unary operators and wildcards record None *)
 
 Inductive cell := CRoot (r : root) | CCode (c : string) | CArg (a : arg).
@@ -42,7 +42,7 @@ Fixpoint record_from (base : list cell) (ops : list (string * arg)) : option (li
 Definition record (ops : list (string * arg)) : option (list cell) := record_from [CRoot RT] ops.
 
 (* ---------- evaluated arguments ---------- *)
-Inductive earg := EVal (v : val) | ESlice (a b c : option Z) | ECall (vs : list val) | ENone.
+Inductive earg := EVal (v : val) | ESlice (a b c : option Z) | ECall (vs : list val) (kw : list (string * val)) | ENone.
 
 (* arg_val on a literal: list / dict / tuple / set literals are rebuilt (fresh objects), OrderedDict and
    everything else is passed as is *)
@@ -305,12 +305,17 @@ Fixpoint arg_val (rec : evalfn) (target : val) (a : arg) : res earg :=
               | Some cells => do v <- rec target cells; Ok (EVal v)
               | None => Unmodelled "record" end
   | ASlice x y z => Ok (ESlice x y z)
-  | ACall args =>
+  | ACall args kw =>
+      (* Python's order: the positional arguments left to right, then the keyword arguments in the order written *)
       do vs <- (fix go (l : list arg) : res (list val) :=
                   match l with [] => Ok []
                   | x :: r => do e <- arg_val rec target x;
                               match e with EVal v => do vs <- go r; Ok (v :: vs) | _ => Unmodelled "call-arg" end end) args;
-      Ok (ECall vs)
+      do kvs <- (fix gok (l : list (string * arg)) : res (list (string * val)) :=
+                  match l with [] => Ok []
+                  | (k, x) :: r => do e <- arg_val rec target x;
+                                   match e with EVal v => do kvs <- gok r; Ok ((k, v) :: kvs) | _ => Unmodelled "call-arg" end end) kw;
+      Ok (ECall vs kvs)
   | ANoArg => Ok ENone end.
 
 Definition zidx (i : Z) : nat := Z.to_nat i.
@@ -366,10 +371,11 @@ Definition step_op (rec : evalfn) (target : val) (cells : list cell) (i : Z) (co
     Ok (inr (VList 0 vs))
   else if String.eqb code "(" then
     match a with
-    | ECall vs =>
+    | ECall vs kw =>
         (* the call arm wraps cur and the arguments in Call, which runs arg_val over them itself; when _t_eval has already run
            arg_val over them (generated flag), their VALUES go through it a second time: list / dict / tuple / set values rebuilt *)
-        do v <- call_val cur (if call_args_reevaluated then map rebuild vs else vs); Ok (inl v)
+        do v <- call_kw cur (if call_args_reevaluated then map rebuild vs else vs)
+                          (if call_args_reevaluated then map (fun kv => (fst kv, rebuild (snd kv))) kw else kw); Ok (inl v)
     | _ => Unmodelled "arg-shape" end
   else
     (* arithmetic: the generated arm table decides; an opcode without an arm falls through the
